@@ -4,7 +4,7 @@ ENGINES = [
     {
         "name": "symx",
         "path": "/verif/symx",
-        "serves_properties": ["C04", "C07", "C13", "C16", "C17", "C18"],
+        "serves_properties": ["C04", "C07", "C08", "C13", "C16", "C17", "C18"],
         "kind_free_text": "own symbolic executor: geoh5py's real functions run under CPython with the module-global "
         "`np` (and, for file paths, `h5py`) rebound to z3-backed models; re-execution DFS forks on symbolic "
         "branches; obligations are z3 validity queries; counterexamples are replayed on real numpy/h5py",
@@ -90,6 +90,20 @@ CLAIMED = {
         "continuation beyond the last station, and displacement == depth difference where station directions coincide. "
         "Partial: vertices/cells created for added depth/interval data are outside the claim.",
     ),
+    "C08": _symx(
+        "C08",
+        "bounded symbolic execution of the real values setter -> format_values/format_type -> H5Writer.write_data_values "
+        "-> (proxy over real HDF5) -> fresh Workspace -> H5Reader.fetch_values chain with exact modular cast model; z3 "
+        "validity queries; counterexamples replayed on real numpy/h5py",
+        "bounded symbolic model checking of the numeric storage path: arrays of 1-3 elements, each a symbolic finite "
+        "value of the input dtype (unbounded magnitude within the dtype), NaN or +/-inf, are assigned to stored float, "
+        "integer and boolean data; z3 proves that an accepted value is representable (integral, inside int32, 0/1), "
+        "that the stored dataset holds the value / the no-data code, and that a fresh Workspace on the same file "
+        "reads back what was written (NaN as NaN, integer gaps as the integer no-data code). Text, blobs and value "
+        "maps are outside the claim.",
+        _SYMX_NOTE + "; A-H5: datasets with symbolic content are kept beside the real HDF5 file by a proxy and handed "
+        "back unchanged (h5py's own conversions are only exercised for concrete payloads)",
+    ),
     "C07": {
         "engine": "symx",
         "technique": "bounded symbolic execution of the real remove_vertices/remove_cells/values-setter code on a "
@@ -128,7 +142,6 @@ NOT_APPLICABLE = {
     "histories over an object graph, no value-level kernel",
     "C03": _NOT_BUILT,
     "C06": _NOT_BUILT,
-    "C08": _NOT_BUILT,
     "C14": _NOT_BUILT,
     "C15": _NOT_BUILT,
 }
